@@ -348,4 +348,17 @@ every model -/
 def finish (M : MM) (S : Script) (isUser : Nat → Bool) (resolves : List Nat) (models : List Val) : List Ev :=
   resolves.map Ev.resolve ++ (initsFrom isUser 0 models ++ procsFrom M S 0 models)
 
+/-! ### models of several metamodels in one load
+
+`call_obj_processors(m._tx_metamodel, m)`: every model of the load is walked with
+the metamodel it was loaded with — an imported file can belong to another
+registered language, whose metamodel has its own processor registrations. -/
+
+def procsFromMM (S : Script) : Nat → List (MM × Val) → List Ev
+  | _, [] => []
+  | k, mv :: vs => procEvents mv.1 S k mv.2 ++ procsFromMM S (k + 1) vs
+
+def finishMM (S : Script) (isUser : Nat → Bool) (resolves : List Nat) (models : List (MM × Val)) : List Ev :=
+  resolves.map Ev.resolve ++ (initsFrom isUser 0 (models.map (·.2)) ++ procsFromMM S 0 models)
+
 end Proc
